@@ -203,7 +203,10 @@ func (s *seqRun) dirScan(d []byte) {
 		plus   bool
 		b1, b2 uint32
 	}
-	for _, b := range []budget{{false, 0, 0}, {false, 97, 0}, {false, 150, 0}, {false, 400, 0}, {true, 0, 0xffffffff}, {true, 0xffffffff, 197}, {true, 20, 500}, {true, 0xffffffff, 0}} {
+	for _, b := range []budget{{false, 0, 0}, {false, 97, 0}, {false, 150, 0}, {false, 400, 0}, {false, 1000, 0}, {false, 2500, 0},
+		{true, 0, 0xffffffff}, {true, 0xffffffff, 197}, {true, 20, 500}, {true, 0xffffffff, 0},
+		// budgets that put several entries on a page: the reply-size accounting decides where a page ends
+		{true, 0xffffffff, 1269}, {true, 0xffffffff, 1500}, {true, 0xffffffff, 2048}, {true, 0xffffffff, 3001}, {true, 4096, 4096}, {true, 700, 0xffffffff}} {
 		var got []dent
 		cookie := uint64(0)
 		calls := 0
